@@ -33,6 +33,24 @@
 (*   Deliver           the writer below failover (cache -> ... -> client)  *)
 (*   Tick              (MC configs only) the clock moves between steps     *)
 (*                                                                         *)
+(* Two dimensions beyond the walk itself:                                  *)
+(*   prework   the resolution below failover (validation, sub-queries) was *)
+(*             rejected on a NON-outbound budget of the request tree       *)
+(*             (internal sub-queries, DNSKEY candidates, signatures per    *)
+(*             RRset, signatures, DS digests, NSEC3 hashes, crypto slots)  *)
+(*             before any packet left: in enforce mode the tree's ledger   *)
+(*             is latched and the primary writes the over-budget SERVFAIL  *)
+(*             while the OUTBOUND budget still has room - only failover's  *)
+(*             up-front guard (LatchGuard) keeps the fallback pool out of  *)
+(*             it; in shadow / off the same work is only counted.          *)
+(*   id        whose transaction ID a message carries: the client's        *)
+(*             ("client": built from the request, or stamped) or the ID    *)
+(*             of the server's own fallback query ("own": failover builds  *)
+(*             a fresh request with SetQuestion, the fallback's response   *)
+(*             echoes THAT id until `resp.Id = m.Id` runs - StampFirst:    *)
+(*             before the response is classified, so the retained          *)
+(*             failureResponse is stamped too).                            *)
+(*                                                                         *)
 (* Time is a Nat; only timeouts (and Tick) move it.  A forwarder attempt   *)
 (* waits min(T, QT - now) (Client.Timeout = cfg.Timeout and the context    *)
 (* deadline), a failover attempt min(FoCap, QT - now) (no Client.Timeout,  *)
@@ -48,7 +66,11 @@
 (* transaction ID (FwdStream; their first attempt is still called "udp"    *)
 (* here, a DoH attempt waits for the whole window: T = QT in its configs); *)
 (* the pre-exhausted guard tuples `pre` stand for attempts the same        *)
-(* request tree made before it reached the forwarder.                      *)
+(* request tree made before it reached the forwarder; likewise `prework`   *)
+(* stands for the resolver below failover (in forwarder mode nothing       *)
+(* consumes the non-outbound budgets): the replay spends it on the real    *)
+(* ledger between failover and the forwarder and answers as the resolver   *)
+(* handler answers a refused resolution.                                   *)
 (***************************************************************************)
 EXTENDS Integers, FiniteSets, Sequences, TLC
 
@@ -62,12 +84,17 @@ CONSTANTS
   T, QT, FoCap,   \* forwarder per-attempt timeout, query window, failover per-endpoint ceiling
   Ticks,          \* TRUE: the clock may also move between steps (exhaustive configs)
   FwdStream,      \* TRUE: the forwarders are stream upstreams (tls:// DoT or https:// DoH): no UDP, no TC fallback
+  PreWorks,       \* SUBSET WorkKinds \cup {"none"}: the non-outbound budget the primary resolution was rejected on
   \* mutant switches: TRUE in the code; FALSE switches a guard off (negative configs)
   DebitFirst,     \* BeforeAttempt debits the ledger before the attempt is made
   CheckMatch,     \* a response to another question is an error, never relayed
-  StopAtDeadline  \* attempts are cut at the request deadline and the walk stops there
+  StopAtDeadline, \* attempts are cut at the request deadline and the walk stops there
+  LatchGuard,     \* failover hands a latched tree's SERVFAIL on as the over-budget reply before it looks at the pool
+  StampFirst      \* failover stamps the client's ID on a fallback response before it classifies it
 
 MaxAtt == 3
+(* every budget of the ledger but the outbound one (middleware.RecursionWorkKind) *)
+WorkKinds == {"internal", "dnskey", "rrsig", "signature", "dsdigest", "nsec3", "crypto"}
 Protos == {"udp", "tcp"}
 Fwd == 1..NF
 Fb == (NF + 1)..(NF + NB)
@@ -103,18 +130,22 @@ Rc(f) == IF f = "nxdomain" THEN "nxdomain" ELSE "noerror"
 FailRc(f) == IF f = "refused" THEN "refused" ELSE "servfail"
 
 Marks == {"none", "attempt", "deadline"}
-NoMsg == [kind |-> "none", from |-> 0, rc |-> "none", mark |-> "none", ok |-> TRUE]
-Relay(s, f) == [kind |-> "relay", from |-> s, rc |-> Rc(f), mark |-> "none", ok |-> f # "wrongQuestion"]
-UpFail(s, rc, mk) == [kind |-> "upfail", from |-> s, rc |-> rc, mark |-> mk, ok |-> TRUE]
-LocalFail(mk) == [kind |-> "localfail", from |-> 0, rc |-> "servfail", mark |-> mk, ok |-> TRUE]
-PlainFail == [kind |-> "plainfail", from |-> 0, rc |-> "servfail", mark |-> "none", ok |-> TRUE]
-WorkFail == [kind |-> "workfail", from |-> 0, rc |-> "servfail", mark |-> "none", ok |-> TRUE]
+(* id: whose transaction ID the message carries.  A relayed answer is stamped on the success path of both walks;
+   the synthesised failures are built from the client's request (SetRcode / SetRcodeWithEDE / CancelWithRcode);
+   a retained upstream failure carries what it carried when it was retained (fid) *)
+NoMsg == [kind |-> "none", from |-> 0, rc |-> "none", mark |-> "none", ok |-> TRUE, id |-> "none"]
+Relay(s, f) == [kind |-> "relay", from |-> s, rc |-> Rc(f), mark |-> "none", ok |-> f # "wrongQuestion", id |-> "client"]
+UpFail(s, rc, mk, i) == [kind |-> "upfail", from |-> s, rc |-> rc, mark |-> mk, ok |-> TRUE, id |-> i]
+LocalFail(mk) == [kind |-> "localfail", from |-> 0, rc |-> "servfail", mark |-> mk, ok |-> TRUE, id |-> "client"]
+PlainFail == [kind |-> "plainfail", from |-> 0, rc |-> "servfail", mark |-> "none", ok |-> TRUE, id |-> "client"]
+WorkFail == [kind |-> "workfail", from |-> 0, rc |-> "servfail", mark |-> "none", ok |-> TRUE, id |-> "client"]
 (* MarkRequestLocalFailureResponse: the first mark on a message wins *)
 Mark(msg, mk) == IF msg.mark = "none" THEN [msg EXCEPT !.mark = mk] ELSE msg
 
 VARIABLES
   mode, cap,      \* configuration of this behaviour
   pre,            \* guard tuples exhausted before the forwarder ran
+  prework,        \* the non-outbound budget the primary resolution runs into ("none": it needs none of that work)
   pc, lvl,        \* control point; whose walk: "fwd" | "fo"
   idx, cur, proto,\* next list position, server and transport of the attempt in progress
   pend,           \* the fault of the server whose TC=1 answer is being retried over TCP ("none" otherwise)
@@ -123,7 +154,7 @@ VARIABLES
   debits,         \* ledger outbound counter (accepted debits; 0 in mode off)
   passes,         \* ghost: BeforeAttempt calls that returned nil
   latched,        \* the ledger latched an enforcement rejection
-  fresp, frc,     \* failureResponse of the running walk: the server it came from (0 = nil), its rcode
+  fresp, frc, fid,\* failureResponse of the running walk: the server it came from (0 = nil), its rcode, whose ID it carries
   lerr,           \* requestLocalErr of the running walk
   m,              \* what the forwarder wrote into failover's wrapper
   reply, replies, replyAt,
@@ -131,10 +162,10 @@ VARIABLES
   nsent, wire,    \* packets the upstreams received: total, per tuple
   sent, script    \* history: <<server, proto, debits>> per packet; the fault each server played
 
-vars == <<mode, cap, pre, pc, lvl, idx, cur, proto, pend, now, guard, debits, passes, latched, fresp, frc, lerr, m,
+vars == <<mode, cap, pre, prework, pc, lvl, idx, cur, proto, pend, now, guard, debits, passes, latched, fresp, frc, fid, lerr, m,
           reply, replies, replyAt, engaged, entry, nsent, wire, sent, script>>
 (* the exhaustive configs identify states that differ only in the two history variables *)
-View == <<mode, cap, pre, pc, lvl, idx, cur, proto, pend, now, guard, debits, passes, latched, fresp, frc, lerr, m,
+View == <<mode, cap, pre, prework, pc, lvl, idx, cur, proto, pend, now, guard, debits, passes, latched, fresp, frc, fid, lerr, m,
           reply, replies, replyAt, engaged, entry, nsent, wire>>
 
 PCs == {"serve", "next", "ctx", "guard", "debit", "send", "recv", "finish", "fo", "deliver", "done"}
@@ -142,23 +173,30 @@ PCs == {"serve", "next", "ctx", "guard", "debit", "send", "recv", "finish", "fo"
 Init ==
   /\ mode \in Modes /\ cap \in Caps
   /\ pre \in {P \in SUBSET Tuples : Cardinality(P) <= MaxPre}
+  /\ prework \in PreWorks
   /\ pc = "serve" /\ lvl = "fwd" /\ idx = 1 /\ cur = 0 /\ proto = "udp" /\ pend = "none" /\ now = 0
   /\ guard = [t \in Tuples |-> IF t \in pre THEN MaxAtt ELSE 0]
-  /\ debits = 0 /\ passes = 0 /\ latched = FALSE /\ fresp = 0 /\ frc = "none" /\ lerr = "none"
+  /\ debits = 0 /\ passes = 0 /\ latched = FALSE /\ fresp = 0 /\ frc = "none" /\ fid = "none" /\ lerr = "none"
   /\ m = NoMsg /\ reply = NoMsg /\ replies = 0 /\ replyAt = 0
   /\ engaged = FALSE /\ entry = [rc |-> "none", latched |-> FALSE, expired |-> FALSE]
   /\ nsent = 0 /\ wire = [t \in Tuples |-> 0] /\ sent = <<>> /\ script = [s \in Srv |-> "none"]
 
 hist == <<sent, script>>
-cfgv == <<mode, cap, pre>>
+cfgv == <<mode, cap, pre, prework>>
 
 (* the writer below failover: what reaches the cache and the client *)
 Out(msg) == reply' = msg /\ pc' = "deliver"
 
+(* The resolution below failover starts.  Work on a non-outbound budget comes first (prework): in enforce mode the
+   debit is refused, the ledger latches that kind as the tree's first rejection and the primary answers the
+   over-budget SERVFAIL (resolver.DNSHandler: SetRcodeWithEDE + request-local mark) without having sent a packet -
+   the outbound counter is untouched, BeforeAttempt's debit would still pass.  Shadow / off: counted only. *)
 FwdServe ==
   /\ pc = "serve"
-  /\ pc' = "next"
-  /\ UNCHANGED <<cfgv, lvl, idx, cur, proto, pend, now, guard, debits, passes, latched, fresp, frc, lerr, m, reply, replies,
+  /\ IF prework # "none" /\ mode = "enforce"
+       THEN latched' = TRUE /\ m' = WorkFail /\ pc' = "fo"
+       ELSE pc' = "next" /\ UNCHANGED <<latched, m>>
+  /\ UNCHANGED <<cfgv, lvl, idx, cur, proto, pend, now, guard, debits, passes, fresp, frc, fid, lerr, reply, replies,
                  replyAt, engaged, entry, nsent, wire, hist>>
 
 FwdNext ==
@@ -167,7 +205,7 @@ FwdNext ==
        THEN pc' = "finish" /\ UNCHANGED <<idx, cur, proto>>
        ELSE pc' = "ctx" /\ cur' = idx /\ proto' = "udp" /\ idx' = idx + 1
   /\ pend' = "none"
-  /\ UNCHANGED <<cfgv, lvl, now, guard, debits, passes, latched, fresp, frc, lerr, m, reply, replies, replyAt, engaged,
+  /\ UNCHANGED <<cfgv, lvl, now, guard, debits, passes, latched, fresp, frc, fid, lerr, m, reply, replies, replyAt, engaged,
                  entry, nsent, wire, hist>>
 
 (* the request window is gone: the forwarder breaks out of its loop with a request-local cause, failover hands
@@ -183,7 +221,7 @@ BeforeAttemptCtx(l) ==
   /\ IF StopAtDeadline /\ now >= QT
        THEN Expired(l)
        ELSE pc' = "guard" /\ UNCHANGED <<lerr, reply>>
-  /\ UNCHANGED <<cfgv, lvl, idx, cur, proto, pend, now, guard, debits, passes, latched, fresp, frc, m, replies, replyAt,
+  /\ UNCHANGED <<cfgv, lvl, idx, cur, proto, pend, now, guard, debits, passes, latched, fresp, frc, fid, m, replies, replyAt,
                  engaged, entry, nsent, wire, hist>>
 
 GuardBegin(l) ==
@@ -195,7 +233,7 @@ GuardBegin(l) ==
             /\ pc' = "next" /\ UNCHANGED guard
        ELSE /\ guard' = [guard EXCEPT ![t] = @ + 1]
             /\ pc' = "debit" /\ UNCHANGED lerr
-  /\ UNCHANGED <<cfgv, lvl, idx, cur, proto, pend, now, debits, passes, latched, fresp, frc, m, reply, replies, replyAt,
+  /\ UNCHANGED <<cfgv, lvl, idx, cur, proto, pend, now, debits, passes, latched, fresp, frc, fid, m, reply, replies, replyAt,
                  engaged, entry, nsent, wire, hist>>
 
 Debit(l) ==
@@ -215,7 +253,7 @@ Debit(l) ==
                                    ELSE Out(WorkFail) /\ UNCHANGED m
               ELSE /\ debits' = debits + 1 /\ passes' = passes + 1 /\ pc' = "send"
                    /\ UNCHANGED <<latched, m, reply>>
-  /\ UNCHANGED <<cfgv, lvl, idx, cur, proto, pend, now, guard, fresp, frc, lerr, replies, replyAt, engaged, entry, nsent,
+  /\ UNCHANGED <<cfgv, lvl, idx, cur, proto, pend, now, guard, fresp, frc, fid, lerr, replies, replyAt, engaged, entry, nsent,
                  wire, hist>>
 
 Send(l, s, p) ==
@@ -224,7 +262,7 @@ Send(l, s, p) ==
   /\ wire' = [wire EXCEPT ![<<s, p>>] = @ + 1]
   /\ sent' = Append(sent, <<s, p, debits>>)
   /\ pc' = "recv"
-  /\ UNCHANGED <<cfgv, lvl, idx, cur, proto, pend, now, guard, debits, passes, latched, fresp, frc, lerr, m, reply, replies,
+  /\ UNCHANGED <<cfgv, lvl, idx, cur, proto, pend, now, guard, debits, passes, latched, fresp, frc, fid, lerr, m, reply, replies,
                  replyAt, engaged, entry, script>>
 
 Recv(l, f) ==
@@ -241,42 +279,46 @@ Recv(l, f) ==
      /\ now' = nw
      /\ CASE gone ->
                \* Exchange returns the context's error whatever was read
-               /\ Expired(l) /\ UNCHANGED <<m, fresp, frc, proto>>
+               /\ Expired(l) /\ UNCHANGED <<m, fresp, frc, fid, proto>>
           [] ~gone /\ cls = "ok" ->
                /\ IF l = "fwd" THEN m' = Relay(cur, f) /\ pc' = "fo" /\ UNCHANGED reply
                                ELSE Out(Relay(cur, f)) /\ UNCHANGED m
-               /\ UNCHANGED <<fresp, frc, lerr, proto>>
+               /\ UNCHANGED <<fresp, frc, fid, lerr, proto>>
           [] ~gone /\ cls = "fail" ->
                /\ fresp' = IF fresp = 0 THEN cur ELSE fresp
                /\ frc' = IF fresp = 0 THEN FailRc(f) ELSE frc
+               \* the forwarder asks under the client's own request; failover under a request of its own
+               /\ fid' = IF fresp # 0 THEN fid ELSE IF l = "fo" /\ ~StampFirst THEN "own" ELSE "client"
                /\ pc' = "next" /\ UNCHANGED <<m, reply, lerr, proto>>
           [] ~gone /\ cls \in {"err", "timeout"} ->
-               /\ pc' = "next" /\ UNCHANGED <<m, reply, fresp, frc, lerr, proto>>
+               /\ pc' = "next" /\ UNCHANGED <<m, reply, fresp, frc, fid, lerr, proto>>
           [] ~gone /\ cls = "tc" ->
-               /\ proto' = "tcp" /\ pc' = "ctx" /\ UNCHANGED <<m, reply, fresp, frc, lerr>>
+               /\ proto' = "tcp" /\ pc' = "ctx" /\ UNCHANGED <<m, reply, fresp, frc, fid, lerr>>
      /\ pend' = IF proto = "udp" /\ cls = "tc" /\ ~gone THEN f ELSE "none"
   /\ UNCHANGED <<cfgv, lvl, idx, cur, guard, debits, passes, latched, replies, replyAt, engaged, entry, nsent,
                  wire, sent>>
 
 FwdFinish ==
   /\ pc = "finish" /\ lvl = "fwd"
-  /\ m' = IF fresp # 0 THEN UpFail(fresp, frc, lerr)
+  /\ m' = IF fresp # 0 THEN UpFail(fresp, frc, lerr, fid)
           ELSE IF lerr # "none" THEN LocalFail(lerr) ELSE PlainFail
   /\ pc' = "fo"
-  /\ UNCHANGED <<cfgv, lvl, idx, cur, proto, pend, now, guard, debits, passes, latched, fresp, frc, lerr, reply, replies,
+  /\ UNCHANGED <<cfgv, lvl, idx, cur, proto, pend, now, guard, debits, passes, latched, fresp, frc, fid, lerr, reply, replies,
                  replyAt, engaged, entry, nsent, wire, hist>>
 
+(* failover's first guard on a SERVFAIL: the request tree carries a latched enforcement rejection (of ANY budget) *)
+Stop == LatchGuard /\ latched
 FoWriteMsg ==
   /\ pc = "fo"
   /\ entry' = [rc |-> m.rc, latched |-> latched, expired |-> StopAtDeadline /\ now >= QT]
   /\ CASE NB = 0 \/ m.rc # "servfail" ->
-            Out(m) /\ UNCHANGED <<lvl, idx, fresp, frc, lerr, engaged>>
-       [] NB > 0 /\ m.rc = "servfail" /\ latched ->       \* RecursionWorkEnforcementError(ctx) != nil
-            Out(WorkFail) /\ UNCHANGED <<lvl, idx, fresp, frc, lerr, engaged>>
-       [] NB > 0 /\ m.rc = "servfail" /\ ~latched /\ StopAtDeadline /\ now >= QT ->
-            Out(Mark(m, "deadline")) /\ UNCHANGED <<lvl, idx, fresp, frc, lerr, engaged>>
-       [] NB > 0 /\ m.rc = "servfail" /\ ~latched /\ ~(StopAtDeadline /\ now >= QT) ->
-            /\ engaged' = TRUE /\ lvl' = "fo" /\ idx' = 1 /\ fresp' = 0 /\ frc' = "none" /\ lerr' = m.mark
+            Out(m) /\ UNCHANGED <<lvl, idx, fresp, frc, fid, lerr, engaged>>
+       [] NB > 0 /\ m.rc = "servfail" /\ Stop ->          \* RecursionWorkEnforcementError(ctx) != nil
+            Out(WorkFail) /\ UNCHANGED <<lvl, idx, fresp, frc, fid, lerr, engaged>>
+       [] NB > 0 /\ m.rc = "servfail" /\ ~Stop /\ StopAtDeadline /\ now >= QT ->
+            Out(Mark(m, "deadline")) /\ UNCHANGED <<lvl, idx, fresp, frc, fid, lerr, engaged>>
+       [] NB > 0 /\ m.rc = "servfail" /\ ~Stop /\ ~(StopAtDeadline /\ now >= QT) ->
+            /\ engaged' = TRUE /\ lvl' = "fo" /\ idx' = 1 /\ fresp' = 0 /\ frc' = "none" /\ fid' = "none" /\ lerr' = m.mark
             /\ pc' = "next" /\ UNCHANGED reply
   /\ UNCHANGED <<cfgv, cur, proto, pend, now, guard, debits, passes, latched, m, replies, replyAt, nsent, wire, hist>>
 
@@ -288,25 +330,25 @@ FoNext ==
          THEN Out(Mark(m, "deadline")) /\ UNCHANGED <<idx, cur, proto>>
          ELSE pc' = "ctx" /\ cur' = NF + idx /\ proto' = "udp" /\ idx' = idx + 1 /\ UNCHANGED reply
   /\ pend' = "none"
-  /\ UNCHANGED <<cfgv, lvl, now, guard, debits, passes, latched, fresp, frc, lerr, m, replies, replyAt, engaged, entry,
+  /\ UNCHANGED <<cfgv, lvl, now, guard, debits, passes, latched, fresp, frc, fid, lerr, m, replies, replyAt, engaged, entry,
                  nsent, wire, hist>>
 
 FoFinish ==
   /\ pc = "finish" /\ lvl = "fo"
-  /\ Out(IF fresp # 0 THEN UpFail(fresp, frc, lerr) ELSE Mark(m, lerr))
-  /\ UNCHANGED <<cfgv, lvl, idx, cur, proto, pend, now, guard, debits, passes, latched, fresp, frc, lerr, m, replies, replyAt,
+  /\ Out(IF fresp # 0 THEN UpFail(fresp, frc, lerr, fid) ELSE Mark(m, lerr))
+  /\ UNCHANGED <<cfgv, lvl, idx, cur, proto, pend, now, guard, debits, passes, latched, fresp, frc, fid, lerr, m, replies, replyAt,
                  engaged, entry, nsent, wire, hist>>
 
 Deliver ==
   /\ pc = "deliver"
   /\ replies' = replies + 1 /\ replyAt' = now /\ pc' = "done"
-  /\ UNCHANGED <<cfgv, lvl, idx, cur, proto, pend, now, guard, debits, passes, latched, fresp, frc, lerr, m, reply, engaged,
+  /\ UNCHANGED <<cfgv, lvl, idx, cur, proto, pend, now, guard, debits, passes, latched, fresp, frc, fid, lerr, m, reply, engaged,
                  entry, nsent, wire, hist>>
 
 Tick ==
   /\ Ticks /\ pc \notin {"done", "deliver", "recv"} /\ now < QT
   /\ now' = now + 1
-  /\ UNCHANGED <<cfgv, pc, lvl, idx, cur, proto, pend, guard, debits, passes, latched, fresp, frc, lerr, m, reply, replies,
+  /\ UNCHANGED <<cfgv, pc, lvl, idx, cur, proto, pend, guard, debits, passes, latched, fresp, frc, fid, lerr, m, reply, replies,
                  replyAt, engaged, entry, nsent, wire, hist>>
 
 Next ==
@@ -322,15 +364,16 @@ FairSpec == Spec /\ WF_vars(Next)
 ---------------------------------------------------------------------------
 MsgOK(x) == /\ x.kind \in {"none", "relay", "upfail", "localfail", "plainfail", "workfail"}
             /\ x.from \in 0..(NF + NB) /\ x.rc \in {"none", "noerror", "nxdomain", "refused", "servfail"}
-            /\ x.mark \in Marks /\ x.ok \in BOOLEAN
+            /\ x.mark \in Marks /\ x.ok \in BOOLEAN /\ x.id \in {"none", "client", "own"}
 
 TypeOK ==
-  /\ mode \in Modes /\ cap \in Caps /\ pre \subseteq Tuples
+  /\ mode \in Modes /\ cap \in Caps /\ pre \subseteq Tuples /\ prework \in WorkKinds \cup {"none"}
   /\ pc \in PCs /\ lvl \in {"fwd", "fo"} /\ idx \in 1..(NF + NB + 1) /\ cur \in 0..(NF + NB) /\ proto \in Protos
   /\ pend \in AllFaults \cup {"none"}
   /\ now \in Nat /\ guard \in [Tuples -> 0..MaxAtt]
   /\ debits \in Nat /\ passes \in Nat /\ latched \in BOOLEAN
-  /\ fresp \in 0..(NF + NB) /\ frc \in {"none", "refused", "servfail"} /\ lerr \in Marks
+  /\ fresp \in 0..(NF + NB) /\ frc \in {"none", "refused", "servfail"} /\ fid \in {"none", "client", "own"}
+  /\ lerr \in Marks
   /\ MsgOK(m) /\ MsgOK(reply) /\ replies \in Nat /\ replyAt \in Nat
   /\ engaged \in BOOLEAN /\ nsent \in Nat /\ wire \in [Tuples -> Nat]
 
@@ -354,6 +397,16 @@ WorkFailIffLatched ==
   /\ latched => mode = "enforce"
   /\ pc = "done" => ((reply.kind = "workfail") <=> latched)
 GuardRespected == \A t \in Tuples : guard[t] <= MaxAtt /\ (t \in pre => wire[t] = 0)
+
+(* enforce: a tree rejected on ANY budget is answered the over-budget SERVFAIL, and not one more packet leaves for it
+   (the reply that would replace it could only come from the fallback pool) *)
+OverBudgetReplyIsWorkFail == (pc = "done" /\ latched) => (reply.kind = "workfail" /\ reply.rc = "servfail")
+NoTrafficAfterPrimaryRejection == (prework # "none" /\ mode = "enforce") => nsent = 0
+(* shadow / off: the same non-outbound work changes nothing (the run is a run of the model without it) *)
+PreworkOnlyBitesInEnforce == (prework # "none" /\ latched) => mode = "enforce"
+
+(* ---- C06 link: whatever ends the walk, what is handed up (and on to the client) carries the client's transaction ID ---- *)
+ReplyEchoesClientId == (m.kind # "none" => m.id = "client") /\ (reply.kind # "none" => reply.id = "client")
 
 (* ---- failover is entered only over a shared SERVFAIL of a live request ---- *)
 FailoverOnlyOnServfail == engaged => (NB > 0 /\ entry.rc = "servfail" /\ ~entry.latched /\ ~entry.expired)
